@@ -308,6 +308,15 @@ def rule_n5(F):
                     if "arg1" in cd and need & cd and not any(g["bb"] == bi for g in gs):
                         v += [x for _, x in t["targets"]] + [t["otherwise"]]
                         why.append("comparison line %d" % t.get("line", 0))
+            # `q.checked_sub(1)` came back None: q is 0, which is in range for every string - that edge needs no lookup
+            for g in gs:
+                for c in g["chain"]:
+                    t = b.blocks[c[0]]["term"]
+                    if t["k"] == "call" and hir.last(mir.callee_def(t)) == "checked_sub" and len(t["args"]) == 2 \
+                            and D(t["args"][0]) == need and (mir.op_const(t["args"][1]) or {}).get("v") == 1 \
+                            and mir.is_place_op(t["args"][0]) and mir.origin_key(b, defs, t["args"][0][1]) == "arg%d" % q:
+                        v += g["bad"]
+                        why.append("index is 0 (checked_sub(1) is None) line %d" % t["line"])
             return v, why
         val = {q: validators(q) for q in idx_params}
         n = 0
@@ -332,7 +341,22 @@ def rule_n5(F):
             need = [idx_params[0]] + [q for q in idx_params[1:] if "arg%d" % q in payload]
             okq = {}
             for q in need:
-                okq[ls[q].get("name") or "arg%d" % q] = any(v == bi or v in dom[bi] for v in val[q][0])
+                # every path from the entry to this Some passes through one of the validating edges
+                avoid = set(val[q][0])
+                seen_, work_ = set(), [0] if 0 not in avoid else []
+                reached = False
+                while work_:
+                    x = work_.pop()
+                    if x in seen_:
+                        continue
+                    seen_.add(x)
+                    if x == bi:
+                        reached = True
+                        break
+                    for sx in mir.succs(b.blocks[x]):
+                        if sx not in avoid and sx not in seen_:
+                            work_.append(sx)
+                okq[ls[q].get("name") or "arg%d" % q] = not reached
             key = "%s Some #%d" % (p.split("value::string::")[1], n)
             r.inst(key, {"fn": p, "line": st["line"], "value_depends_on": sorted(payload), "validated": okq,
                          "validators": {(ls[q].get("name") or str(q)): val[q][1] for q in need}})
